@@ -66,6 +66,36 @@ CLAIMED.update({
  'C23': ('6/C23', 'Generated programs interleaving SB/SC writes (all store forms) with DMA starts, timer/LCD/sound pokes and interrupt dispatch, with and without a writer; blargg ROMs as guests with SB writes snooped at instruction boundaries; the recorded writer history must equal the written sequence (and, if a program leaves its path, the SB stores actually executed) exactly once, in order, nothing else; SB/SC read FF; class pair: two instances with slow writers that block inside Write before consuming the byte while the scheduler runs the other instance.',
          TB+'Writer errors are not injected (panic by design, statement silent).', 'deterministic simulation: recorded serial history vs guest write sequence (exactly-once, in-order)'),
 })
+
+# classes added in the later sessions (waves 3-7 of seeded changes, DESIGN.md 10.5-10.12); appended to the level text
+EXT = {
+ 'C01': 'banked code, stores through OAM pointers with the LCD on, marker self-loads with the test ROMs\' verdict registers, bus-write oracle (hook H4)',
+ 'C02': 'DMA in flight, frame-loop boundary, wait-loop idioms of real guests with the LCD on, key events during programs',
+ 'C03': 'bus read/write oracle with cycles (hook H4), instruction behind HALT / a jump / a frame boundary, hardware registers (IF, FF46 included) as stamped targets',
+ 'C04': 'HALT and CB-prefixed instructions in sequences, DMA in flight, dispatch pushing onto IE',
+ 'C05': 'EI;HALT with a pending request, CB prefix behind the halt bug, wake-up dispatch pushing onto IE',
+ 'C06': 'timer-hot, ie-dispatch and dma-hot classes, instruction trace and DebugLCD configurations',
+ 'C07': 'control write + store unobserved in between, reference cartridge after every cartridge write, per-channel status bits',
+ 'C08': 'every type byte of a family, 8 MiB MBC3, headers in every page, sparse observation, controller-less images declaring more ROM/RAM',
+ 'C09': 'as C08, mid-history dumps, DMA from cartridge space',
+ 'C10': 'ROM sizes to 8 MiB, DMA bursts and other-unit writes meanwhile, floods of latch-0 writes',
+ 'C11': 'process exit as a violation (journalled workers), corner programs, trimmed dumps, headers in every page',
+ 'C12': 'enumerated triples of writes in consecutive cycles, environment dimensions (CPU halted/stopped, other units busy)',
+ 'C13': 'LCD on for more than 256 frames, LY stores at line starts, LCDC rewritten in the first line after switch-on',
+ 'C14': 'unacknowledged requests, source selected while the LCD is on, switch-off inside the LYC line, LYC/LY stores inside the LYC line',
+ 'C15': 'first frame after a restart judged in its own vertical blank, crowds at the edges, same-value stores into video registers mid-frame',
+ 'C16': 'out-of-range value replaced in flight, CPU stores into OAM and pointer traffic during the transfer, the HRAM routine run by the CPU, MBC3/MBC5 cartridges, long idle afterwards',
+ 'C17': 'DMA class with pointer steps in its first cycles, code executed out of OAM, LCDC variety, second-frame line 0',
+ 'C18': 'environment dimensions, wave RAM across power cycles while other channels run',
+ 'C19': 'full-length, sweep-on-step and sweep-shadow directed classes',
+ 'C20': 'stream must start and not dry up, route class with NRx4-only restarts, everything-routed / equal-level values, envelope rewrites',
+ 'C21': 'sweep class, fresh machine, noise retuned without trigger, notes on second boundaries',
+ 'C22': 'bursts and storms of 2^8..2^17 events between reads, minute-long holds, Super Game Boy packet probe',
+ 'C23': 'executed-store oracle, read-modify-write forms, pairs of instances with slow writers, 70,000-byte lines, standard output and standard error watched',
+ 'C24': 'host stalls, cartridge shapes with first-touch reads, consumer-pace class (real Run loop against bursty consumers), bus traffic in the trace',
+ 'C25': 'concurrent class under the race detector, crowds of 9-13 instances, instances of one cartridge shape (clock cartridges), second release, bus traffic in the trace',
+ 'C26': 'sound-unit clock, soak class, write-induced overflows incl. stores every other cycle, harness-acknowledged timer requests',
+}
 NOT_YET = 'check not built yet in this session; planned in DESIGN.md section 6 (will be claimed when its simulator scenario class and oracle exist)'
 NOT_APPLICABLE = {}
 
@@ -75,6 +105,9 @@ for p in props:
     i=p['id']
     if i in CLAIMED:
         ref,text,note,tech=CLAIMED[i]
+        if i in EXT:
+            text += ' Later extensions (DESIGN.md 10.5-10.12; the evidence file carries the full current rule): ' + EXT[i] + '.'
+            ref += ', 10.5-10.12'
         checks.append({
           'property_id': i,
           'quick_cmd': f'./check {i} quick',
